@@ -92,6 +92,22 @@ def run(ctx):
             ctx.violation(what="constructor lost / changed items", items=str(items), source=kind, observed=str(list(v)), required=str(items))
         if items and any(not isinstance(x, type(items[0])) for x in items):
             ctx.violation(what="constructor accepted an item of another type", items=str(items), observed="accepted", required="TypeError")
+        # the vector holds the items, not the caller's container: later changes of a source list are not changes of the
+        # vector (which would bypass the type check), and vector operations do not reach back into the source
+        if kind == "list" and isinstance(source, list):
+            keep = list(source)
+            source.append("not of the value type" if not isinstance(items[0] if items else 0, str) else 3.5)
+            if source and len(source) > 1:
+                source[0] = source[-1]
+            if list(v) != items:
+                ctx.violation(what="mutating the source list changed the Vector", items=str(items), observed=str(list(v)), required=str(items))
+            del source[:]
+            source.extend(keep)
+            probe = outcome(lambda: v.append(items[0])) if items else None
+            if probe is not None and probe[0] == "ok":
+                if source != keep:
+                    ctx.violation(what="a Vector operation changed the source list", items=str(items), observed=str(source), required=str(keep))
+                v.pop()
         vtype = v._value_type
         for _ in range(rng.randint(0, 10)):
             op = rng.choice(["set", "setslice", "del", "delslice", "insert", "append", "extend", "iadd", "pop", "remove", "reverse", "clear"])
